@@ -261,6 +261,10 @@ func (p *MetadataPersister) GetHeaderChildren(ctx context.Context, name string) 
 
 	// Compare the prefix literally: `like` would treat `_` and `%` in names as wildcards and ignore ASCII case
 	prefix := strings.TrimSuffix(name, "/") + "/" // Prevent double trailing slashes
+	if pathext.IsRoot(name, false) {
+		prefix = "" // Everything is below the root, however the root and the names below it are spelled
+	}
+
 	headers, err := models.Headers(
 		qm.Where("substr("+models.HeaderColumns.Name+", 1, length(?)) = ?", prefix, prefix),
 		qm.Where(models.HeaderColumns.Deleted+" != 1"),
